@@ -12,9 +12,9 @@ from ..canon import chash, canon, to_plain, seq, first_difference
 ID = "C14"
 LEVEL = "exploration"
 CATS = ["sources", "outputs", "attachments", "metadata", "id", "details"]
-RULE = ("all 64 subsets S of {sources, outputs, attachments, metadata, id, details} x 3 routes: positive flags naming the complement "
+RULE = ("all 64 subsets S of {sources, outputs, attachments, metadata, id, details} x 5 routes: positive flags naming the complement "
         "(real nbdiff parser + process_diff_flags), negative flags, and an 'Ignore' mapping (True per path, ['execution_count'] key lists "
-        "for details) given to set_notebook_diff_ignores or through an nbdime_config.json read by ConfigBackedParser; in addition custom key lists on /metadata and /cells/*/metadata (tags, kernelspec, container-valued keys) as docs/source/config.rst shows; pairs from the "
+        "for details) given to set_notebook_diff_ignores or through an nbdime_config.json read by ConfigBackedParser, and the categories' boolean options in a section of nbdime_config.json resolved by the real parsers of nbdiff, nbmerge, git-nbdiffdriver diff, git-nbdifftool diff and git-nbmergedriver merge (own and inherited sections); in addition custom key lists on /metadata and /cells/*/metadata (tags, kernelspec, container-valued keys) as docs/source/config.rst shows; pairs from the "
         "C01 related stream enriched with id-only, attachment-only, output-metadata and execution-count changes plus, for every S, a "
         "pair whose differences are confined to S minus {sources}. Oracles: (1) no op of the diff lies at or below a path of an "
         "ignored category (whole-cell / whole-output insertions excluded); (2) projection of patch(A,d) with ignored categories erased "
